@@ -122,7 +122,7 @@ class xfunc:
         return self.reduce(cube, regions)
 
     @staticmethod
-    def adjust_zeros(arr, new="nan", condition=None):
+    def adjust_zeros(arr, new="nan", condition=None, scaffold_ndim=0):
         """Set arr[<condition or isclose(arr, 0)>] = new and return it.
 
         Use this to adjust values to "nan" or zero. If `condition`
@@ -141,9 +141,12 @@ class xfunc:
         if condition is None:
             # Rounding noise scales with the totals involved: a value is only
             # "barely not 0" relative to them, never in absolute terms alone
-            # (weights may be normalized to any scale).
-            scale = numpy.abs(numpy.nan_to_num(arr)).sum()
-            condition = numpy.isclose(arr, 0, atol=min(1e-8, 1e-10 * scale))
+            # (weights may be normalized to any scale). Each subcube (the
+            # leading `scaffold_ndim` axes index them) has its own totals.
+            magnitudes = numpy.abs(numpy.nan_to_num(arr))
+            axes = tuple(range(scaffold_ndim, magnitudes.ndim))
+            scale = magnitudes.sum(axis=axes, keepdims=True) if axes else magnitudes
+            condition = magnitudes <= numpy.minimum(1e-8, 1e-10 * scale)
 
         if condition.any():
             if new == "nan" and "i" in arr.dtype.str:
@@ -468,7 +471,9 @@ class xfunc_valid_count(xfunc):
         """Return `regions` reduced to proper output."""
         if self.return_missing_as == 0:
             (counts,) = regions
-            counts = self.adjust_zeros(counts, self.null)
+            counts = self.adjust_zeros(
+                counts, self.null, scaffold_ndim=len(cube.scaffold_shape)
+            )
         else:
             if self.ignore_missing:
                 counts, valid_counts = regions
